@@ -194,6 +194,16 @@ def rule_a(ctx):
     okc = len(cs) == 1 and norm(m.canon(cs[0][1]["args"][0])).endswith("deref(&self.components)") and norm(m.canon(cs[0][1]["args"][1])) in ("arg2", "&arg2")
     ctx.check(okc, "C20-A", "matches=do_matches(all components, element)", m.span, m.id,
               str([[norm(m.canon(a)) for a in t["args"]] for _bb, t in cs]))
+    # ... and nothing but that: the call is made on every path and its result is the result (no pre-filter in front of it)
+    if cs:
+        cbb, ct = cs[0]
+        uncond = not [1 for (a, s2) in m.cdeps_transitive(cbb)] and all(m.dominates(cbb, r) for r in m.reachable() if m.term(r)["k"] == "return")
+        rets = [norm(m.canon(st["rv"]["use"])) if "use" in (st.get("rv") or {}) else "?" for x in m.reachable() for st in m.stmts(x)
+                if st["k"] == "assign" and st["lhs"]["l"] == 0 and not st["lhs"]["p"]]
+        direct = ct["dest"]["l"] == 0 and not ct["dest"]["p"] and not rets
+        ctx.check(uncond and (direct or all("do_matches(" in r for r in rets)), "C20-A", "matches:is-exactly-do_matches", m.span, m.id,
+                  "Selector::matches decides something besides do_matches (a fast path, a pre-filter, a post-condition): %s"
+                  % (rets or "conditional call"))
 
 
 def _eqs(b, region):
